@@ -303,37 +303,54 @@ def gen_plan(run_seed: int, k: int, tier: str) -> dict:
 
 
 def gen_race_plan(run_seed: int, k: int) -> dict:
-    """A RACE plan: 12-30 short rounds in one process.  Each round creates a fresh parser
-    (and often a module), then lets 2-3 clients parse with that one object at once, under a
-    schedule with very few pre-emptions (one PCT change point at a uniformly drawn step, or
-    a small per-step probability).  First-use windows (lazy initialisation that publishes
-    before it is complete) and per-call windows on a shared object are a few lines wide and
-    are hit with a per-round probability of about one in a hundred, so what finds them is
-    the number of cheap rounds, not the length of a run."""
+    """A RACE plan: 30-85 short rounds in one process.  A FRESH round (6-14 per plan)
+    creates a parser (and often a module), then lets 2-3 clients parse with that one object
+    at once, under a schedule with very few pre-emptions (one PCT change point at a uniformly
+    drawn step, or a small per-step probability); a REUSE round (25-70 per plan, about a
+    millisecond each) does the same with an object of an earlier round.  First-use windows
+    (lazy initialisation that publishes before it is complete) need fresh objects; per-call
+    windows on a shared object recur on every call.  Both are a few lines wide and are hit
+    with a per-round probability of about one in a hundred when the right clients meet, so
+    what finds them is the number of cheap rounds, not the length of a run."""
     rng = random.Random(run_seed)
     cands = dict(pool.FIXED)
-    cands.update(pool.bundled())
+    # rounds must stay cheap: small grammars and short inputs only (the big ones are exercised
+    # by the ordinary plans)
+    cands.update({n: g for n, g in pool.bundled().items() if len(g["text"]) < 2100})
+    cands = {n: {**g, "calls": [c2 for c2 in g["calls"] if len(c2[1]) <= 48] or g["calls"][:2]} for n, g in cands.items()}
     names = rng.sample(sorted(cands), rng.randint(2, 4))
     gsel = {n: cands[n] for n in names}
     if rng.random() < 0.3:
-        gsel["R0"] = pool.random_grammar(random.Random(common.derive_seed("C15-rg", k % 16, (k // 16) // 4)))
+        gsel["R0"] = pool.random_grammar(random.Random(common.derive_seed("C15-rg", k % 16, (k // 16) // 4, 0)))
     gids = sorted(gsel)
     optimizers = {"o_none": {"passes": None}, "o_shared": {"passes": list(pool.PASS_NAMES), "shared_default": True}, "o1": {"passes": pool.random_optimizer_cfg(rng)}}
     phases = []
     counter = 0
-    for r in range(rng.randint(12, 30)):
-        g = rng.choice(gids)
-        o = rng.choices(("o_none", "o_shared", "o1"), (4, 4, 2))[0]
-        counter += 1
-        pid = f"p{counter}"
-        setup = [{"op": "new", "id": pid, "g": g, "opt": o, "debug": False}]
-        target = pid
-        if rng.random() < 0.4:
+    n_fresh = rng.randint(6, 14)
+    n_total = n_fresh + rng.randint(25, 70)
+    made_objs: list = []  # (object id, grammar id) usable by reuse rounds
+    for r in range(n_total):
+        fresh = r < n_fresh or not made_objs
+        if fresh:
+            g = rng.choice(gids)
+            o = rng.choices(("o_none", "o_shared", "o1"), (4, 4, 2))[0]
             counter += 1
-            setup.append({"op": "gen", "id": f"m{counter}", "p": pid})
-            target = f"m{counter}"
+            pid = f"p{counter}"
+            setup = [{"op": "new", "id": pid, "g": g, "opt": o, "debug": False}]
+            target = pid
+            if rng.random() < 0.45:
+                counter += 1
+                setup.append({"op": "gen", "id": f"m{counter}", "p": pid})
+                target = f"m{counter}"
+                if rng.random() < 0.5:
+                    made_objs.append((pid, g))
+            made_objs.append((target, g))
+        else:
+            target, g = rng.choice(made_objs)
+            pid = target
+            setup = []
         calls = gsel[g]["calls"]
-        if rng.random() < 0.25:
+        if fresh and rng.random() < 0.25:
             rule, text = rng.choice(calls)
             setup.append({"op": "parse", "t": target, "rule": rule, "text": text, "pos": 0})
         clients = []
@@ -347,11 +364,11 @@ def gen_race_plan(run_seed: int, k: int) -> dict:
             by_rule = by_rule + [(first[0], pool.mutate_input(rng, first[1])), (first[0], pool.mutate_input(rng, first[1]))]
         for c in range(rng.choices((2, 3), (7, 3))[0]):
             ops = []
-            for _ in range(rng.randint(1, 3)):
+            for _ in range(rng.choices((1, 2, 3), (6, 3, 1))[0]):
                 rule, text = first if r_mode < 0.25 else (rng.choice(by_rule) if r_mode < 0.7 else rng.choice(calls))
                 ops.append({"op": "parse", "t": target, "rule": rule, "text": text, "pos": 0})
             clients.append(ops)
-        builder = rng.random() < 0.3
+        builder = fresh and rng.random() < 0.3
         if builder:
             # BUILD-vs-USE round: one more client builds (or generates from) another object
             # while the others parse with the round's target -- and then uses what it built
@@ -367,19 +384,23 @@ def gen_race_plan(run_seed: int, k: int) -> dict:
                     made = f"m{counter}"
                 rule, text = rng.choice(gsel[g2]["calls"])
                 bops.append({"op": "parse", "t": made, "rule": rule, "text": text, "pos": 0})
-            else:
+            elif pid.startswith("p"):
                 bops.append({"op": "gen", "id": f"m{counter}", "p": pid})
                 rule, text = rng.choice(calls)
                 bops.append({"op": "parse", "t": f"m{counter}", "rule": rule, "text": text, "pos": 0})
-            clients.append(bops)
+            if bops:
+                clients.append(bops)
         for i, op in enumerate(setup):
             op["oid"] = f"r{r}.s.{i}"
         for c, ops in enumerate(clients):
             for i, op in enumerate(ops):
                 op["oid"] = f"r{r}.c{c}.{i}"
         if rng.random() < 0.6:
-            span = rng.choice((60, 150, 400)) if not builder else rng.choice((150, 1000, 6000))
-            policy = {"kind": "pct", "points": sorted(rng.randint(1, span) for _ in range(rng.choice((1, 1, 2))))}
+            # the length of an operation is not known when the plan is drawn (a short parse
+            # is ~100 steps, a JSON document ~7 000, a from_grammar up to 225 000): the span
+            # the change points are drawn from is log-uniform
+            span = int(2 ** rng.uniform(5, 13 if not builder else 16))
+            policy = {"kind": "pct", "points": sorted(rng.randint(1, span) for _ in range(rng.choice((1, 1, 2, 3))))}
         else:
             policy = {"kind": "rand", "p": rng.choice((0.005, 0.02, 0.05, 0.1))}
         phases.append({"setup": setup, "clients": clients, "policy": policy, "sched_seed": rng.randrange(1 << 30), "faults": []})
@@ -975,7 +996,7 @@ class Check:
 
     def tier_params(self, tier):
         if tier == "quick":
-            return {"n_jobs": 16 * 90, "budget_s": 600.0}
+            return {"n_jobs": 16 * 72, "budget_s": 600.0}
         return {"n_jobs": -1, "budget_s": float(common.env_int("VERIF_BUDGET_S", 900))}
 
     def make_job(self, seed, k, tier):
@@ -1323,7 +1344,7 @@ class Check:
             "parses_checked_against_isolated_reference": acc.get("parses_checked", 0),
             "operation_status_counts": acc.get("op_status", {}),
             "runs_by_policy": acc.get("runs_by_policy", {}),
-            "race_plans": {"runs": acc.get("race_runs", 0), "rounds": acc.get("race_rounds", 0), "rounds_with_a_mid_operation_switch": acc.get("race_rounds_with_a_mid_operation_switch", 0), "what": "12-30 short rounds per run: fresh parser (+module), 2-3 clients parsing with it at once, one or two pre-emptions per round"},
+            "race_plans": {"runs": acc.get("race_runs", 0), "rounds": acc.get("race_rounds", 0), "rounds_with_a_mid_operation_switch": acc.get("race_rounds_with_a_mid_operation_switch", 0), "what": "30-85 short rounds per run: 6-14 with a fresh parser (+module), the rest re-using one; 2-3 clients parsing with the object at once, one or two pre-emptions per round"},
             "runs_by_client_threads": acc.get("threads", {}),
             "simulated_time_scheduler_steps": steps,
             "context_switches": acc.get("switches", 0),
